@@ -214,7 +214,7 @@ def run_lines(binary, lines, timeout=1800, shards=16):
     procs = []
     for ch in chunks:
         p = subprocess.Popen(binary if isinstance(binary, list) else [binary], stdin=subprocess.PIPE, stdout=subprocess.PIPE,
-                             stderr=subprocess.DEVNULL, text=True, env=ENV)
+                             stderr=subprocess.DEVNULL, text=True, errors='replace', env=ENV)
         procs.append(p)
     import threading
     outs = [None] * n
